@@ -241,7 +241,7 @@ def gen_model(rnd, opts=None):
         doms = [[a + s, b + s] for a, b in doms]
     idx = list(range(D))
     off = [0] * D
-    for _ in range(rnd.randint(0, opts.get("max_alias", 3))):
+    for _ in range(rnd.randint(min(opts.get("min_alias", 0), opts.get("max_alias", 3)), opts.get("max_alias", 3))):
         idx.append(rnd.randrange(D))
         off.append(rnd.randint(-3, 3))
     V = len(idx)
@@ -253,7 +253,7 @@ def gen_model(rnd, opts=None):
     def pick(k, pool=None):
         pool = list(range(V)) if pool is None else list(pool)
         if allow_repeat:
-            if rnd.random() < 0.6:  # mostly distinct variables, sometimes with repetition
+            if rnd.random() < 1.0 - opts.get("repeat_p", 0.4):  # mostly distinct variables, sometimes with repetition
                 rnd.shuffle(pool)
                 out = pool[:k]
                 while len(out) < k:
